@@ -71,6 +71,13 @@ Section C12.
   Theorem C12_signed_truncation_rejected : forall s, (0 <=? left s)%Z = true ->
     exists s', read sha256 hmac256 hex key stsPayload stsTrailer trailer s [] true = ([], E_UnexpectedEOF, s').
   Proof. exact (read_truncated sha256 hmac256 hex key stsPayload stsTrailer trailer). Qed.
+
+  (* in whatever state and on whatever bytes: a chunk header that the signed reader accepts for a data chunk (size not zero)
+     declares a signature - the value the parse of the next header verifies. A header "N;chunk-signature=" with nothing
+     behind the "=" is refused (the reader before repair 30f43f0 accepted it and never verified that chunk) *)
+  Theorem C12_signed_data_chunk_declares_signature : forall s p s2 sz sg off,
+    parse_header trailer s p = PH_ok s2 sz sg off -> sz <> 0%Z -> sg <> [].
+  Proof. exact (parse_header_data_signed trailer). Qed.
 End C12.
 
 (* the positive half for the unsigned reader, for every payload and chunking: whatever sizes (each at least one byte) the caller's
